@@ -65,7 +65,7 @@ func runFmtLayout(m *model.Model, s *ob.Set) {
 				continue
 			}
 			if call, ok := in.(*ssa.Call); ok {
-				if cal := call.Call.StaticCallee(); cal != nil && m.InDecimalPkg(cal) && len(call.Call.Args) == 3 {
+				if cal := model.Unthunk(call.Call.StaticCallee()); cal != nil && m.InDecimalPkg(cal) && len(call.Call.Args) == 3 {
 					if k, ok := model.ConstInt(call.Call.Args[2]); ok && k == 1 {
 						if bt := call.Call.Args[1].Type().Underlying().String(); bt == "string" {
 							written = append(written, stripConvAny(call.Call.Args[1]))
